@@ -171,11 +171,17 @@ func genHeaderSet(c *Chooser, n int) [][2]string {
 		}
 		if k == "X-Empty" {
 			v = ""
+		} else if c.Prob(0.08) {
+			v = longMetaValue(c)
 		}
 		out = append(out, [2]string{k, v})
 	}
 	return out
 }
+
+// longMetaValue: a header value of several hundred to a few thousand bytes (valid base64 and plain text at once): metadata
+// blocks larger than a fresh pooled buffer.
+func longMetaValue(c *Chooser) string { return strings.Repeat("QUJD", c.Range(130, 800)) }
 
 func genSegSizes(c *Chooser) []int {
 	switch c.Intn(7) {
@@ -341,6 +347,17 @@ func genRPC(c *Chooser, o ScenOpts) *RPCPlan {
 	cp.Headers = genHeaderSet(c, c.Intn(3))
 	if c.Prob(0.3) {
 		cp.Spelling = Pick(c, 1, 2, 3, 4, 5) // legal spellings of the same request (charset parameter, list separators, repeated header lines)
+	}
+	if c.Prob(0.25) {
+		// a valid timeout in the form's own encoding, weighted to values at which a target encoding changes unit or digit count
+		switch form {
+		case FormGRPC, FormGRPCWeb:
+			cp.Timeout = Pick(c, "100m", "100S", "99999999m", "1H", "2050m", "1000000u", "100000u", "7n", "59M")
+		case FormREST:
+			cp.Timeout = Pick(c, "0.1", "100", "2.05", "99.9999995", "1", "3600", "0.05")
+		default:
+			cp.Timeout = Pick(c, "100", "100000", "100000000", "2050", "5", "60001", "1")
+		}
 	}
 	if form == FormConnectGet && c.Prob(0.3) {
 		// a GET may name the protocol version in a header as well as (or instead of, see C19) in the query
